@@ -269,13 +269,13 @@ PROPS = {
                 note="Tunnel payload is modelled as client-speaks-first (the server's tunnel bytes are offered after the client's); TLS-looking payload contains a NUL early, as real handshakes do.",
                 technique="deterministic simulation: two actors around a CONNECT/upgrade, seeded interleaving of the two directions incl. request bytes beyond the CONNECT head before/after the response; history checks on return codes, consumed counts, callbacks and transactions",
                 design_ref="DESIGN.md section 7 C16",
-                rule="0-2 ordinary exchanges, then CONNECT (or GET+Upgrade) with status 200/204/299/101/407/403/502/400/500/302, followed by plain HTTP exchanges, TLS-looking bytes or nothing; in a third of the upgrade runs the RESPONSE_HEADERS callback of the 101 answer returns STOP/ERROR (the request direction must still end in tunnel mode); request bias 20-100 % (100 = all request bytes first, i.e. beyond the CONNECT head in the same or next chunk); all segmentation strategies. Non-trivial/distinct as for C01."),
-    "C07": dict(reach=['probe.decomp.flush_full', 'probe.decomp.restart', 'probe.decomp.passthrough', 'c07.bomb_runs', 'known_hit.decomp.restart.prior_input'], flavor="san", level="exploration",
+                rule="0-2 ordinary exchanges, then CONNECT (or GET+Upgrade) with status 200/204/299/101/407/403/502/400/500/302/300/301/399/599, followed by plain HTTP exchanges (the first of them now and then with blanks in front of its method), TLS-looking bytes or nothing; an eighth of the runs: refused, and the client sends opaque bytes all the same (nothing may report TUNNEL); in a third of the upgrade runs the RESPONSE_HEADERS callback of the 101 answer returns STOP/ERROR (the request direction must still end in tunnel mode); request bias 20-100 % (100 = all request bytes first, i.e. beyond the CONNECT head in the same or next chunk); all segmentation strategies. Non-trivial/distinct as for C01."),
+    "C07": dict(reach=['probe.decomp.flush_full', 'probe.decomp.restart', 'probe.decomp.passthrough', 'c07.bomb_runs', 'known_hit.decomp.restart.prior_input_beyond_keepback'], flavor="san", level="exploration",
                 claim="Fidelity: payloads encoded by the actors (zlib gzip/raw/zlib-wrapped, liblzma LZMA-alone, two-layer lists, mislabelled and plain bodies) are delivered through every segmentation of the compressed stream and compared with the original payload, under a simulated well-behaved clock. Bound: in every run (incl. the chaos mix with small bomb limits, corrupted streams and clock faults) delivered bytes per message stay within max(limit, 2048 x compressed) + one output buffer and the decompressor chain within the layer limit.",
-                note="Encoders (zlib deflate, liblzma) are trusted actor code; lzma is not mixed into multi-codec lists (libhtp decodes in listed order, the RFC lists in applied order; gzip/deflate mixes are rescued by libhtp's restart logic). The gettimeofday seam advances 1 us per read.",
+                note="Encoders (zlib deflate, liblzma) are trusted actor code; lzma is not mixed into multi-codec lists (libhtp decodes in listed order, the RFC lists in applied order; gzip/deflate mixes are rescued by libhtp's restart logic). The gettimeofday seam advances 1 us per read. One known finding (K07, call site decomp.restart with more than 13 body bytes handed over by earlier calls) is attributed by the monitor and exempt; a restart with 1-13 prior bytes is never exempt.",
                 technique="deterministic simulation: seeded chunkings of the compressed stream under a simulated clock; conservation oracle against the actor's payload + online bound invariant",
                 design_ref="DESIGN.md section 7 C07",
-                rule="9 payload kinds (empty, 1 B, text, random, 8191/8192/8193/16384, 20-70 KB low entropy, up to 200 KB highly compressible, 9-30 KB incompressible) x 11 codings x {CL, chunked, close} x {single-cut sweep over the first/last 40 bytes of the compressed body, 1-5 byte chunks, tiny first chunks then large, all general strategies}; a quarter of the single-coding runs put the coded body on the request (request decompression on); a fifth use a small bomb limit (fidelity is then demanded only for payloads within max(limit, 2048 x compressed)); a third shrink the decompressors' output buffer to 16...8191 bytes through the guarded knob; every 8th run stacks up to 5 codings against the layer limits; every 4th run is a chaos plan (captures incl. compressed ones, mutations, codings on both sides, small bomb limits, clock faults) with only the bound invariants. Non-trivial/distinct as for C01."),
+                rule="9 payload kinds (empty, 1 B, text, random, 8191/8192/8193/16384, 20-70 KB low entropy, up to 200 KB highly compressible, 9-30 KB incompressible) x 11 codings (the bodies that are not valid for the announced coding are plain text or, a quarter of them, begin with a well-formed gzip member header carrying one optional field and go on with a reserved block type) x {CL, chunked, close} x {single-cut sweep over the first/last 40 bytes of the compressed body, 1-5 byte chunks, tiny first chunks then large, all general strategies}; a quarter of the single-coding runs put the coded body on the request (request decompression on); a fifth use a small bomb limit (fidelity is then demanded only for payloads within max(limit, 2048 x compressed)); a third shrink the decompressors' output buffer to 16...8191 bytes through the guarded knob; every 8th run stacks up to 5 codings against the layer limits; every 4th run is a chaos plan (captures incl. compressed ones, mutations, codings on both sides, small bomb limits, clock faults) with only the bound invariants. Non-trivial/distinct as for C01."),
     "C14": dict(flavor="san", level="exploration",
                 claim="Ground truth + differential: multipart bodies wrapped by the actor around parts it chose are parsed through the public streaming API under EVERY single cut (bodies <= 1 KiB; 64 sampled cuts above) plus a seeded multi-cut schedule, and through the connection parser under random wire schedules; parts, file bytes, flags and parameters must equal the encoded parts and be identical for every chunking.",
                 note="Boundary delimiters never occur inside generated part content (near-misses do); with LF-only line ends CR is not generated inside content. Simulated file layer for extracted files (no faults in this scenario).",
@@ -284,7 +284,7 @@ PROPS = {
                 rule="boundaries (1-70 chars, '--', 'a', 'boundary', self-overlapping), 0-8 text/file parts, names/filenames with escaped quotes and backslashes, contents built from CR/LF/dash near-boundary fragments and random bytes, optional preamble/epilogue/part Content-Type, CRLF or LF line ends; 3/4 direct API (whole + every single cut + one multi-cut schedule per body), 1/4 through the connection parser (CL or chunked, reference vs variant chunking). evaluations counts every parse; distinct = distinct result signature."),
     "C15": dict(flavor="san", level="exploration",
                 claim="Reference + differential: each seeded string is parsed whole through the public streaming API and compared with an independent implementation of the statement's rule (split on '&', first '=', drop only a final empty piece, decode per configuration), then under EVERY single cut (strings <= 80 bytes; 24 sampled cuts above) and one seeded multi-cut schedule, which must give the identical result; 1/5 of the runs go through the connection parser as a POST body.",
-                note="The reference decoder models percent/plus decoding with the three invalid-encoding handlings and the two NUL-termination switches; with %u decoding enabled only the chunking-invariance half is asserted.",
+                note="The reference decoder models percent/plus decoding with the three invalid-encoding handlings, the two NUL-termination switches and %uHHHH decoding (the plans install a small best-fit map of their own through the public setter, so the reference knows it).",
                 technique="deterministic simulation: exhaustive single-cut sweep + seeded multi-cut schedules of the parameter stream; executable reference model as oracle",
                 design_ref="DESIGN.md section 7 C15",
                 rule="strings over {a = & % + 1 NUL b f u G SP 0} of length 0-8 and 0-64, random byte strings of 65-2000 bytes with separators mixed in; decoder configurations: invalid handling x3, plusspace x2, NUL-terminates switches, %u decoding. evaluations counts every parse; distinct = distinct result signature."),
@@ -295,8 +295,8 @@ PROPS = {
                 design_ref="DESIGN.md section 7 C08",
                 rule="generated pumps: 33 insertion sites (request method/path/query/protocol/header name/header value/cookie/credentials/content-type/transfer-encoding/host, urlencoded and multipart bodies, multipart part headers, status reason, response header value/content-encoding/transfer-encoding/content-length; whole lines repeated among request/response/interim headers, chunk-size lines, trailers, multipart part headers and bodies, before and after a message) x 44 unit strings (each alone and followed by an ordinary token) or 33 line units x 3 line ends x 3 deliveries, all enumerated by the run index (every odd run), interleaved with the 59 named pump patterns (header lines distinct/same/empty/folded/LF-CR/no-colon, folded continuations under pending lines with/without colon or with empty name x plain/tab/colon/whitespace continuations on both sides, NUL in values, trailers, CR runs, spaces, chunk-size lines, chunk extension, empty lines, parameters in body and query, cookies, multipart parts and near-boundary lines, Content-Encoding tokens, pipelined transactions, interim 100 responses, CR/NUL junk, unexpected body lines, long values) x {whole, 1 byte per call, geometric chunks} x k = 64..8192 (16384 thorough), all personalities. A case = one (pattern, delivery, personality) ladder; evaluations = executions of libhtp."),
     "C18": dict(reach=['c18.k_reached', 'c18.sustained_runs', 'c18.histories'], flavor="san", level="fault_enumeration",
-                claim="Fault enumeration over a seeded corpus: for each history the fault-free run counts K allocations (malloc/calloc/realloc/strdup made by libhtp, zlib and the bundled LZMA decoder, from htp_config_create to htp_config_destroy); then the run is repeated with the k-th allocation failing for every k <= K (quick: at most 1200 evenly spaced k per history), plus sustained-pressure runs in which every allocation from k on fails. Oracle: no ASan/UBSan report, every call returns, the per-call API contract keeps holding, teardown completes without double or invalid free.",
-                note="Leaks under an injected failure are counted, not raised (the statement does not promise leak-freedom under failure). The corpus is seeded, not exhaustive; within a history the enumeration over k is complete in the thorough tier.",
+                claim="Fault enumeration over a seeded corpus: for each history the fault-free run counts K allocations (malloc/calloc/realloc/strdup made by libhtp, zlib and the bundled LZMA decoder, from htp_config_create to htp_config_destroy); then the run is repeated with the k-th allocation failing for every k <= K (quick: at most 1200 evenly spaced k per history, plus every allocation that is a growth realloc - up to 500 per history), plus sustained-pressure runs in which every allocation from k on fails. Oracle: no ASan/UBSan report, every call returns, the per-call API contract keeps holding, teardown completes without double or invalid free.",
+                note="Leaks under an injected failure are counted, not raised (the statement does not promise leak-freedom under failure). The corpus is seeded, not exhaustive (captures, CONNECT/upgrade, coded responses, multipart uploads, random scripts, and a family in which every container outgrows its initial capacity); within a history the enumeration over k is complete in the thorough tier.",
                 technique="deterministic simulation with allocation-failure injection at the allocator seam, enumerated over every allocation index of seeded histories",
                 design_ref="DESIGN.md section 7 C18",
                 rule="corpus entries: .t captures, CONNECT scripts, compressed responses (gzip, deflate, lzma, two layers) with cookies/credentials/query parameters, multipart uploads with file extraction, grammar exchanges; random configuration, optional gap/close/abort, per-tx hook registration, tx disposal. A case = (history, k); non-trivial = the injected failure was actually reached; distinct = distinct behaviour signature of the history."),
